@@ -31,6 +31,8 @@ theorem verdict :
 #print axioms apply_refines_spec_unvalidated_partial
 #print axioms atomic_fold
 #print axioms patchFields_refines
+#print axioms pfGate_created_map
+#print axioms witness_nonmap_seed
 #print axioms wire_cond_agrees
 #print axioms Hv.Patch.wire_op_agrees
 #print axioms Hv.Patch.gw_refines
